@@ -14,7 +14,7 @@ structure Stages where
   optimised : List Dir             -- EMIT_OPTIMISED_INSTS
 
 /-- The front half: up to the directive list handed to `hexasm::CodeGen`. -/
-def stages (P : X.Program) : Except Diag Stages := do
+def stages (P : X.Program) : Except CDiag Stages := do
   let tbl ← createSymbols P
   let A ← constProp tbl P
   let A' := optimise A
@@ -23,26 +23,26 @@ def stages (P : X.Program) : Except Diag Stages := do
   pure { cg := cg, lowered := lowered, optimised := peephole lowered }
 
 /-- The directive list handed to the assembler. -/
-def compileDirs (P : X.Program) : Except Diag (List Dir) := do
+def compileDirs (P : X.Program) : Except CDiag (List Dir) := do
   let s ← stages P
   pure s.optimised
 
 /-- xcmp-built directives carry the default `Location`. -/
 def withLoc (ds : List Dir) : List (Dir × Asm.Loc) := ds.map fun d => (d, ⟨0, 0⟩)
 
-def assembleDirs (ds : List Dir) : Except Diag Asm.Image :=
+def assembleDirs (ds : List Dir) : Except CDiag Asm.Image :=
   match Asm.assemble (withLoc ds) with
   | .error e => .error (.asm e)
   | .ok none => .error .asmFuel
   | .ok (some img) => .ok img
 
 /-- **The compiler**: X program to assembled image. -/
-def compile (P : X.Program) : Except Diag Asm.Image := do
+def compile (P : X.Program) : Except CDiag Asm.Image := do
   let ds ← compileDirs P
   assembleDirs ds
 
 /-- The bytes of the file `xcmp` writes. -/
-def compileFile (P : X.Program) : Except Diag (List Byte) := do
+def compileFile (P : X.Program) : Except CDiag (List Byte) := do
   let img ← compile P
   pure (Asm.fileBytes img)
 
